@@ -181,6 +181,33 @@ pub fn run(ctx: &mut Ctx) {
     if ctx.worker == 0 {
         ctx.st.exhaustive.push(json!({"name": "every string of length <= 6 over {a, /, :, ., @} as combined name x 7 types", "size": idx * 7, "completed": true}));
     }
+    // complete: lengths 7..=10 over the separators and their ASCII neighbours (word-at-a-time
+    // searches confuse neighbouring byte values only inside a full machine word)
+    let mut idx2 = 0u64;
+    for alphabet in [['a', ':', ';', '9'], ['a', '/', '.', '0']] {
+        for len in 7..=10usize {
+            let total = 4u64.pow(len as u32);
+            for j in 0..total {
+                idx2 += 1;
+                if !ctx.mine(idx2) {
+                    continue;
+                }
+                let mut s = String::new();
+                let mut rem = j;
+                for _ in 0..len {
+                    s.push(alphabet[(rem % 4) as usize]);
+                    rem /= 4;
+                }
+                let tys: &[&'static str] = if alphabet[1] == ':' { &["maven"] } else { &["golang", "npm"] };
+                for ty in tys {
+                    split_case(ctx, ty, &s, "exhaustive:word-length-strings");
+                }
+            }
+        }
+    }
+    if ctx.worker == 0 {
+        ctx.st.exhaustive.push(json!({"name": "every string of length 7..=10 over {a, :, ;, 9} (maven) and over {a, /, ., 0} (golang, npm)", "size": idx2, "completed": true}));
+    }
     // random hostile strings with separators at random and extreme positions
     let mut r = ctx.rng("c18.split");
     for _ in 0..ctx.share(600_000, 12_000_000) {
